@@ -1350,13 +1350,17 @@ class Mixture(_AbstractDistribution):
             p=self.probabilities,
         )
 
-        samples = []
+        # Every column is a draw from the mixture: put the draws of a component in the
+        # columns that selected it (not grouped by component)
+        samples = _numpy.empty((self.dimensions, repeat))
         for _index, _repeats in _numpy.vstack(
             _numpy.unique(generate_from, return_counts=True)
         ).T:
-            samples.append(self.distributions[_index].generate(_repeats, rng=rng))
+            samples[:, generate_from == _index] = self.distributions[_index].generate(
+                _repeats, rng=rng
+            )
 
-        return _numpy.hstack(samples)
+        return samples
 
 
 def EvaluationLimiter_ClassConstructor(
